@@ -42,6 +42,9 @@ def main():
     try:
         mod = importlib.import_module('props.' + a.prop)
         repo = Repo()
+        import json as _json
+        rq = os.path.join(VERIF, 'props', 'required.json')
+        pr.required = _json.load(open(rq)).get(a.prop, []) if os.path.exists(rq) else []
         mod.run(pr, repo)
     except Exception:
         traceback.print_exc()
